@@ -118,6 +118,8 @@ M = [
   '            sample_file.write("50000\\n")', '            pass'),
  ('C20', 'n15-preserve-env-of-first-run-cached', 'rebench/executor.py',
   '",".join(env.keys())', '",".join(self.__dict__.setdefault("_first_keys", list(env.keys())))'),
+ ('C20', 'n16-kill-via-sudo-if-command-starts-with-sudo', 'rebench/subprocess_with_timeout.py',
+  '    executable_name = args.split(" ", 1)[0]\n', '    executable_name = args.split(" ", 1)[0]\n    uses_sudo = uses_sudo or executable_name == "sudo"\n'),
  ('C20', 'n14-num-cores-minus-one', 'rebench/executor.py',
   'cmdline += "--num-cores " + str(num_cores) + " "', 'cmdline += "--num-cores " + str(num_cores - 1) + " "'),
 ]
